@@ -3,6 +3,7 @@ package main
 // Native bridge (concrete arguments only) and the fmt model (DESIGN §2.5).
 
 import (
+	"sort"
 	"encoding/json"
 	"fmt"
 	"go/types"
@@ -402,12 +403,19 @@ func (e *Exec) formatOne(caller *frame, spec string, verb byte, arg Value) Str {
 			if spec == "%v" || spec == "%s" {
 				return v
 			}
+			if spec == "%q" {
+				return e.quoteSym(v)
+			}
 			panic(abortErr{"fragment", "symbolic string formatted with " + spec})
 		}
 	case Sym:
 		k, _ := basicInfo(i.t)
 		if plain && v.t.sort.K == SBV {
 			return e.formatSymInt(v.t, k)
+		}
+		if spec == "%q" && v.t.sort.K == SBV {
+			c := e.path.concretize(e, e.tt.Resize(v.t, 64, !isUnsignedKind(k)), "fmt %q")
+			return mkStr(fmt.Sprintf("%q", c))
 		}
 		if plain && v.t.sort.K == SBool {
 			if e.path.branch(e, v.t, "fmt bool") {
@@ -444,8 +452,118 @@ func (e *Exec) formatOne(caller *frame, spec string, verb byte, arg Value) Str {
 		}
 		return concatStr(out, mkStr("}"))
 	}
+	if spec == "%v" && hasSymLeaf(i.v, 0) {
+		if out, ok := e.formatContainer(caller, i); ok {
+			return out
+		}
+	}
 	g := e.marshalAny(i)
 	return mkStr(fmt.Sprintf(spec, g))
+}
+
+// hasSymLeaf reports whether a value contains symbolic leaves.
+func hasSymLeaf(v Value, depth int) bool {
+	if depth > 8 {
+		return false
+	}
+	switch x := v.(type) {
+	case Sym:
+		return true
+	case Str:
+		return x.b != nil
+	case Slice:
+		for _, c := range sliceElems(x) {
+			if hasSymLeaf(c, depth+1) {
+				return true
+			}
+		}
+	case Array:
+		for _, c := range x {
+			if hasSymLeaf(c, depth+1) {
+				return true
+			}
+		}
+	case Struct:
+		for _, c := range x {
+			if hasSymLeaf(c, depth+1) {
+				return true
+			}
+		}
+	case Iface:
+		return x.t != nil && hasSymLeaf(x.v, depth+1)
+	case *MapObj:
+		if x != nil {
+			for j := range x.keys {
+				if hasSymLeaf(x.keys[j], depth+1) || hasSymLeaf(x.vals[j], depth+1) {
+					return true
+				}
+			}
+		}
+	case RValue:
+		return x.t != nil && hasSymLeaf(x.v, depth+1)
+	}
+	return false
+}
+
+// formatContainer is %v for slices, arrays and maps that hold symbolic leaves:
+// fmt's layout ([a b], map[k:v] with sorted keys), elements formatted by the engine.
+func (e *Exec) formatContainer(caller *frame, i Iface) (Str, bool) {
+	wrap := func(t types.Type, v Value) Value {
+		if _, isI := under(t).(*types.Interface); isI {
+			return v
+		}
+		return Iface{t: t, v: v}
+	}
+	switch u := under(i.t).(type) {
+	case *types.Slice, *types.Array:
+		var elems []Value
+		var et types.Type
+		if sl, ok := u.(*types.Slice); ok {
+			et = sl.Elem()
+			elems = sliceElems(i.v.(Slice))
+		} else {
+			et = u.(*types.Array).Elem()
+			elems = i.v.(Array)
+		}
+		out := mkStr("[")
+		for k, c := range elems {
+			if k > 0 {
+				out = concatStr(out, mkStr(" "))
+			}
+			out = concatStr(out, e.formatOne(caller, "%v", 'v', wrap(et, c)))
+		}
+		return concatStr(out, mkStr("]")), true
+	case *types.Map:
+		m := i.v.(*MapObj)
+		if m == nil {
+			return mkStr("map[]"), true
+		}
+		type kv struct {
+			k string
+			v Value
+		}
+		var kvs []kv
+		for j := range m.keys {
+			ks := e.formatOne(caller, "%v", 'v', wrap(u.Key(), m.keys[j]))
+			if ks.b != nil {
+				return Str{}, false
+			}
+			kvs = append(kvs, kv{ks.s, m.vals[j]})
+		}
+		// fmt sorts map keys; for string and integer keys this is the printed order
+		// except for mixed-width negatives, which do not occur in the harness maps
+		sort.Slice(kvs, func(a, b int) bool { return kvs[a].k < kvs[b].k })
+		out := mkStr("map[")
+		for k, p := range kvs {
+			if k > 0 {
+				out = concatStr(out, mkStr(" "))
+			}
+			out = concatStr(out, mkStr(p.k+":"))
+			out = concatStr(out, e.formatOne(caller, "%v", 'v', wrap(u.Elem(), p.v)))
+		}
+		return concatStr(out, mkStr("]")), true
+	}
+	return Str{}, false
 }
 
 func (e *Exec) sprintf(caller *frame, format string, args []Value) Str {
@@ -550,7 +668,7 @@ func (e *Exec) formatSymInt(t *Term, k types.BasicKind) Str {
 		pow *= 10
 	}
 	digits := make([]Value, nd)
-	if nd <= 4 {
+	if nd <= 20 {
 		// threshold method: no division terms (bvudiv by constants stalls bit-blasting)
 		rem := v
 		p := uint64(1)
@@ -559,7 +677,7 @@ func (e *Exec) formatSymInt(t *Term, k types.BasicKind) Str {
 		}
 		for i := 0; i < nd; i++ {
 			// digit = number of thresholds k*p (k=1..9) that rem reaches
-			d := tt.BV(0, 64)
+			d := tt.BV('0', 8)
 			sub := tt.BV(0, 64)
 			for k := uint64(9); k >= 1; k-- {
 				ge := tt.BVCmp("bvuge", rem, tt.BV(k*p, 64))
@@ -568,10 +686,12 @@ func (e *Exec) formatSymInt(t *Term, k types.BasicKind) Str {
 			}
 			for k := uint64(1); k <= 9; k++ {
 				ge := tt.BVCmp("bvuge", rem, tt.BV(k*p, 64))
-				d = tt.Ite(ge, tt.BV(k, 64), d)
+				d = tt.Ite(ge, tt.BV('0'+k, 8), d)
 				sub = tt.Ite(ge, tt.BV(k*p, 64), sub)
 			}
-			digits[i] = e.fromTermK(tt.BVBin("bvadd", tt.Resize(d, 8, false), tt.BV('0', 8)), types.Uint8)
+			// the digit character is an ite-tree over the constants '0'..'9', which
+			// lets comparisons against it fold (leafRange)
+			digits[i] = e.fromTermK(d, types.Uint8)
 			rem = tt.BVBin("bvsub", rem, sub)
 			p /= 10
 		}
@@ -589,6 +709,62 @@ func (e *Exec) formatSymInt(t *Term, k types.BasicKind) Str {
 		s = concatStr(mkStr("-"), s)
 	}
 	return s
+}
+
+// quoteSym is strconv.Quote on a string with symbolic bytes, forking on the byte class.
+// Bytes >= 0x80 need Unicode printability tables and are outside the fragment.
+func (e *Exec) quoteSym(s Str) Str {
+	tt := e.tt
+	out := mkStr("\"")
+	for i := 0; i < s.Len(); i++ {
+		c := s.at(i)
+		ci, conc := c.(int64)
+		if conc {
+			if ci >= 0x80 {
+				panic(abortErr{"fragment", "non-ASCII byte in symbolic string formatted with %q"})
+			}
+			q := strconv.Quote(string(rune(ci)))
+			out = concatStr(out, mkStr(q[1:len(q)-1]))
+			continue
+		}
+		t := c.(Sym).t
+		br := func(cond *Term) bool { return e.path.branch(e, cond, "quote") }
+		if br(tt.BVCmp("bvuge", t, tt.BV(0x80, 8))) {
+			panic(abortErr{"fragment", "non-ASCII byte in symbolic string formatted with %q"})
+		}
+		done := false
+		for _, sp := range []struct {
+			b   byte
+			esc string
+		}{{'"', "\\\""}, {'\\', "\\\\"}, {'\a', "\\a"}, {'\b', "\\b"}, {'\f', "\\f"}, {'\n', "\\n"}, {'\r', "\\r"}, {'\t', "\\t"}, {'\v', "\\v"}} {
+			if br(tt.Eq(t, tt.BV(uint64(sp.b), 8))) {
+				out = concatStr(out, mkStr(sp.esc))
+				done = true
+				break
+			}
+		}
+		if done {
+			continue
+		}
+		if br(tt.Or(tt.BVCmp("bvult", t, tt.BV(0x20, 8)), tt.Eq(t, tt.BV(0x7f, 8)))) {
+			// \xNN with symbolic hex digits
+			hex := func(n *Term) Value {
+				d := tt.BV('0', 8)
+				for k := uint64(1); k < 16; k++ {
+					ch := uint64("0123456789abcdef"[k])
+					d = tt.Ite(tt.Eq(n, tt.BV(k, 8)), tt.BV(ch, 8), d)
+				}
+				return e.fromTermK(d, types.Uint8)
+			}
+			hi := tt.BVBin("bvlshr", t, tt.BV(4, 8))
+			lo := tt.BVBin("bvand", t, tt.BV(15, 8))
+			out = concatStr(out, mkStr("\\x"))
+			out = concatStr(out, strFromBytes([]Value{hex(hi), hex(lo)}))
+			continue
+		}
+		out = concatStr(out, strFromBytes([]Value{c}))
+	}
+	return concatStr(out, mkStr("\""))
 }
 
 // formatSymFloat prints a symbolic float64 the way %v does, for the values whose
@@ -766,9 +942,9 @@ func (e *Exec) marshal(t types.Type, v Value) (out reflect.Value) {
 			mv := e.marshal(st.Field(j).Type(), x[j])
 			if f.CanSet() {
 				f.Set(mv)
-			} else {
-				panic(abortErr{"fragment", "struct with unexported fields reaches native formatting: " + t.String()})
 			}
+			// unexported fields stay zero: encoding/json ignores them, and %v of structs is
+			// formatted by the engine itself (formatOne), never through this path
 		}
 	case *Closure:
 		panic(abortErr{"fragment", "func value reaches native formatting"})
